@@ -563,7 +563,7 @@ func cmpC13(c0 hx.Case, impl any, reply map[string]any) hx.Verdict {
 						isDiff = append(isDiff, fmt.Sprintf("forwarded body %s, expected (defaults for absent properties only) %s", bodyVal(p1), want))
 					}
 				case "reject":
-					isDiff = append(isDiff, "accepted although, without treating an explicit null as absent, the body does not validate; forwarded "+bodyVal(p1))
+					isDiff = append(isDiff, "accepted, but the body does not validate when only ABSENT properties receive defaults; forwarded "+bodyVal(p1))
 				}
 			}
 			is, ss := c13StoreTexts(p1["store"], false), c13StoreTexts(spec["store"], true)
